@@ -444,7 +444,7 @@ def run(prog, rep, tier):
                 w.line, [t.split("<")[0] for t in tys]))
 
     # R13.4b: the alignment width is measured in display columns; padding must use the same measure
-    #         (the formatter's own padding), never width minus a byte length
+    #         (width minus the name's display width), never width minus a byte length
     lens = set()
     for c in b.live_calls():
         if c.d.endswith("str::<impl str>::len") or c.d.endswith("String::len"):
@@ -474,6 +474,22 @@ def run(prog, rep, tier):
     for c in b.live_calls():
         if c.d.split("::")[-1] in ("saturating_sub", "checked_sub", "wrapping_sub") and any(a[0] in ("cp", "mv") and a[1][0] in wt for a in c.args) and any(a[0] in ("cp", "mv") and a[1][0] in lt for a in c.args):
             mixed.append(c.line)
+    # the formatter's own `{:<width$}` pads by char count, a third measure: a column count must not become a fmt width
+    fmtw = []
+    for c in b.live_calls():
+        if c.d.split("::")[-1] == "from_usize" and "fmt::rt::Argument" in c.d and c.args:
+            hit = c.args[0][0] in ("cp", "mv") and c.args[0][1][0] in wt
+            for o_ in b.origins(c.args[0]):
+                if o_[0] in ("local", "arg") and o_[1] in wt:
+                    hit = True
+                if o_[0] == "call" and any(z.bb == o_[1] and z.dest and z.dest[0] in wt for z in b.calls):
+                    hit = True
+            if hit:
+                fmtw.append(c.line)
+    rep.examined(R134, PL + "|padding-by-formatter", sample={"display_width_used_as_fmt_width_at_lines": fmtw, "display_width_calls": len(widths)})
+    if fmtw:
+        rep.violation(R134, PL + "|padding-by-formatter", "processing_loop (line %s): the alignment width is measured in display columns (unicode_width) but handed to the formatter as `{:<width$}`, which pads by char count; "
+                      "names with wide (CJK) characters are over-padded and names with zero-width characters under-padded, so the prepended fields do not line up" % fmtw[0])
     rep.examined(R134, PL + "|padding-measure", sample={"byte_length_results": len(lens), "width_minus_byte_length_sites": mixed})
     if mixed:
         rep.violation(R134, PL + "|padding-measure", "processing_loop: padding is computed as display width minus a byte length (line %s); names with multi-byte characters are under-padded, so aligned prefixes differ in width" % mixed[0])
